@@ -487,6 +487,7 @@ Qed.
 
 Section LiteralFacts.
   Variable bdec : uv -> option uv.
+  Variable benc : uv -> option uv.
 
   Lemma py_eq_of_eqb : forall a b, uv_eqb a b = true -> py_eq a b = true.
   Proof.
@@ -494,21 +495,45 @@ Section LiteralFacts.
     destruct (num_val a); [apply Z.eqb_refl | apply uv_eqb_refl].
   Qed.
 
-  Lemma lit_strict_match : forall v l, lit_strict bdec v l = true -> lit_match bdec v l = true.
-  Proof. intros v l; destruct l; simpl; auto using py_eq_of_eqb. Qed.
+  (* with the class check, `==` against a non-float constant is identity of the value *)
+  Lemma class_and_eq : forall v w, is_float w = false ->
+    same_class v w && py_eq v w = uv_eqb v w.
+  Proof.
+    intros v w Hf. unfold same_class, py_eq.
+    destruct w; try discriminate; destruct v; try reflexivity;
+      try (match goal with iv: option Z |- _ => destruct iv end);
+      cbn [num_val uv_eqb class_of]; try reflexivity; try apply andb_false_r;
+      try (repeat match goal with x: bool |- _ => destruct x end; reflexivity).
+    match goal with |- context [String.eqb ?a ?b && (String.eqb ?a ?b && _)] => destruct (String.eqb a b) end; reflexivity.
+  Qed.
 
-  Theorem lit_dec_partial : forall lits v, lit_homog bdec lits v = true ->
+  Lemma lit_nofloat_In : forall lits l, lit_nofloat lits = true -> In l lits ->
+    is_float (lit_wire l) = false /\ is_float (lit_const l) = false.
+  Proof.
+    intros lits l H Hi. unfold lit_nofloat in H. rewrite forallb_forall in H. specialize (H l Hi).
+    apply andb_true_iff in H; destruct H as [H1 H2]. split; apply negb_true_iff; assumption.
+  Qed.
+
+  Lemma lit_match_strict : forall v l, is_float (lit_wire l) = false ->
+    lit_match bdec v l = lit_strict bdec v l.
+  Proof. intros v l H; destruct l; simpl in *; try reflexivity; apply class_and_eq; assumption. Qed.
+
+  (* Literal positions accept exactly their listed values and return the listed constant *)
+  Theorem lit_dec_full : forall lits v, lit_nofloat lits = true ->
     lit_dec bdec lits v = ref_lit bdec lits v.
   Proof.
     intros lits v H. unfold lit_dec, ref_lit. apply first_some_ext_in. intros l Hi.
-    unfold lit_homog in H. rewrite forallb_forall in H. specialize (H l Hi).
-    destruct (lit_match bdec v l) eqn:M; simpl in H.
-    - rewrite H; reflexivity.
-    - destruct (lit_strict bdec v l) eqn:S; [|reflexivity].
-      apply lit_strict_match in S; congruence.
+    destruct (lit_nofloat_In lits l H Hi) as [Hw _]. rewrite (lit_match_strict v l Hw). reflexivity.
   Qed.
 
-  (* whatever is accepted, the result is one of the listed constants, and it was ==-matched *)
+  Theorem lit_enc_full : forall lits v, lit_nofloat lits = true ->
+    lit_enc benc lits v = ref_lit_enc benc lits v.
+  Proof.
+    intros lits v H. unfold lit_enc, ref_lit_enc. apply first_some_ext_in. intros l Hi.
+    destruct (lit_nofloat_In lits l H Hi) as [_ Hc]. unfold lit_pmatch. rewrite (class_and_eq v _ Hc). reflexivity.
+  Qed.
+
+  (* whatever is accepted, the result is one of the listed constants *)
   Theorem lit_dec_returns_listed : forall lits v c, lit_dec bdec lits v = Some c ->
     exists l, In l lits /\ c = lit_const l /\ lit_match bdec v l = true.
   Proof.
@@ -516,20 +541,19 @@ Section LiteralFacts.
     destruct (lit_match bdec v l) eqn:M; [|discriminate]. inversion Hl; eauto.
   Qed.
 
-  (* every listed value is accepted; a rejected input equals no listed value *)
+  Lemma lit_strict_match : forall v l, lit_strict bdec v l = true -> lit_match bdec v l = true.
+  Proof.
+    intros v l; destruct l; simpl; auto; intro H; rewrite (py_eq_of_eqb _ _ H);
+      apply uv_eqb_eq in H; subst; unfold same_class; rewrite String.eqb_refl; reflexivity.
+  Qed.
+
+  (* every listed value is accepted (also for float-valued enum members) *)
   Theorem lit_dec_accepts_listed : forall lits v l, In l lits -> lit_strict bdec v l = true ->
     lit_dec bdec lits v <> None.
   Proof.
     intros lits v l Hi Hs H. unfold lit_dec in H.
     pose proof (proj1 (first_some_none _ _) H l Hi) as Hl. simpl in Hl.
     rewrite (lit_strict_match v l Hs) in Hl. discriminate.
-  Qed.
-
-  (* inputs that are not numbers cannot be ==-equal across classes *)
-  Lemma non_numeric_homog : forall lits v, num_val v = None -> lit_homog bdec lits v = true.
-  Proof.
-    intros lits v Hn. unfold lit_homog. apply forallb_forall. intros l _.
-    destruct l; cbv [lit_match lit_strict]; try (unfold py_eq; rewrite Hn; apply implb_same); apply implb_same.
   Qed.
 End LiteralFacts.
 
